@@ -120,6 +120,17 @@ def touches(p, evs):
             if n in PTR_READ:
                 t.add('PTR_READ')
                 x = a[-1] if a else None
+                y = x
+                while y is not None and y[0] == 'cast' and len(y) > 2:
+                    y = y[2]
+                if y is not None and y is not x and cell_get(y):
+                    # `ptr::read(self.0.get() as *const T)`: the cell's own bits read as a T (the cast spelling of
+                    # `(*self.0.get()).as_ptr() as *const T`); read as a `*mut T` it is the stored address
+                    targ = ((getattr(e, 'fn', None) or {}).get('args') or [None])[0]
+                    if targ == 'T':
+                        t.add('OWN_BITS')
+                    elif targ == '*mut T':
+                        t.add('DEREF_STORED')
                 if x is not None and x[0] == 'call' and x[2] in ('std::mem::MaybeUninit::as_ptr', 'std::mem::MaybeUninit::as_mut_ptr') and x[3] \
                         and x[3][0][0] in ('ref', 'rawptr') and x[3][0][1][0] == 'local':
                     t.add('OWN_SLOT_TAKE')  # ptr::read(slot.as_ptr()) of the receiver's own local slot
@@ -130,6 +141,9 @@ def touches(p, evs):
             if n == 'std::mem::zeroed':
                 t.add('ZEROED')
             if n == 'std::mem::forget':
+                t.add('FORGET')
+            if n == 'std::mem::ManuallyDrop::new' and not any(x.kind == 'call' and x.name in (
+                    'std::mem::ManuallyDrop::drop', 'std::mem::ManuallyDrop::into_inner', 'std::mem::ManuallyDrop::take') for x in p.events):
                 t.add('FORGET')
             if n == 'signal::Signal::set_ptr':
                 t.add('SET_PTR')
@@ -497,7 +511,7 @@ def p4(ctx):
                 if len(fg) != 1 or fg[0].data['val'] != ('param', 2):
                     ctx.violate(b.key, p, 'small-T write must forget its argument exactly once (otherwise the receiver\'s copy is dropped too)')
                 bc = [e for e in p.events if e.kind == 'call' and e.name == 'pointer::store_as_kanal_ptr']
-                if bc and fg and fg[0].raw.idx < bc[0].idx:
+                if bc and fg and fg[0].raw.idx < bc[0].idx and fg[0].data.get('how') != 'ManuallyDrop':
                     ctx.violate(b.key, p, 'argument forgotten before its bits were copied')
                 if any(e.name == 'DROP' and e.data['val'] == ('param', 2) for e in evs):
                     ctx.violate(b.key, p, 'small-T write drops its argument (double drop with the receiver)')
